@@ -371,7 +371,10 @@ func c20GenCase(r *common.Rand) c20Case {
 		}}
 	case 6, 7:
 		req := &btpb.CheckAndMutateRowRequest{TableName: tbl, RowKey: hostileBytes(r), PredicateFilter: hostileFilter(r, 2), TrueMutations: hostileMutations(r), FalseMutations: hostileMutations(r)}
-		return c20Case{fmt.Sprintf("CheckAndMutateRow %v", req), func(ctx context.Context, s *drive.Srv) error { _, err := s.Data.CheckAndMutateRow(ctx, req); return err }}
+		return c20Case{fmt.Sprintf("CheckAndMutateRow %v", req), func(ctx context.Context, s *drive.Srv) error {
+			_, err := s.Data.CheckAndMutateRow(ctx, req)
+			return err
+		}}
 	case 8, 9:
 		req := &btpb.ReadModifyWriteRowRequest{TableName: tbl, RowKey: hostileBytes(r)}
 		for i, n := 0, r.Intn(4); i < n; i++ {
@@ -386,7 +389,10 @@ func c20GenCase(r *common.Rand) c20Case {
 				req.Rules = append(req.Rules, &btpb.ReadModifyWriteRule{FamilyName: "f1", ColumnQualifier: hostileBytes(r), Rule: &btpb.ReadModifyWriteRule_AppendValue{AppendValue: hostileBytes(r)}})
 			}
 		}
-		return c20Case{fmt.Sprintf("ReadModifyWriteRow %v", req), func(ctx context.Context, s *drive.Srv) error { _, err := s.Data.ReadModifyWriteRow(ctx, req); return err }}
+		return c20Case{fmt.Sprintf("ReadModifyWriteRow %v", req), func(ctx context.Context, s *drive.Srv) error {
+			_, err := s.Data.ReadModifyWriteRow(ctx, req)
+			return err
+		}}
 	case 10:
 		req := &btpb.SampleRowKeysRequest{TableName: tbl}
 		return c20Case{fmt.Sprintf("SampleRowKeys %v", req), func(ctx context.Context, s *drive.Srv) error {
@@ -438,7 +444,10 @@ func c20GenCase(r *common.Rand) c20Case {
 				req.Modifications = append(req.Modifications, &btapb.ModifyColumnFamiliesRequest_Modification{Id: common.Pick(r, []string{"f1", "g"}), Mod: &btapb.ModifyColumnFamiliesRequest_Modification_Create{Create: &btapb.ColumnFamily{GcRule: hostileGc(r, 2)}}})
 			}
 		}
-		return c20Case{fmt.Sprintf("ModifyColumnFamilies %v", req), func(ctx context.Context, s *drive.Srv) error { _, err := s.Admin.ModifyColumnFamilies(ctx, req); return err }}
+		return c20Case{fmt.Sprintf("ModifyColumnFamilies %v", req), func(ctx context.Context, s *drive.Srv) error {
+			_, err := s.Admin.ModifyColumnFamilies(ctx, req)
+			return err
+		}}
 	case 13:
 		req := &btapb.DropRowRangeRequest{Name: common.Pick(r, []string{drive.TableName(drive.Parent, "fz"), "nope", ""})}
 		switch r.Intn(4) {
